@@ -671,9 +671,11 @@ func (m *Module) usesOfFunc(fn *ssa.Function) []ssa.Instruction {
 // eachInstr visits every instruction of every source function in the module.
 func (m *Module) eachInstr(f func(fn *ssa.Function, in ssa.Instruction)) {
 	for _, fn := range m.Funcs {
+		// an instruction of a spliced helper belongs to the function it is spliced into
+		o := m.owner(fn)
 		for _, b := range fn.Blocks {
 			for _, in := range b.Instrs {
-				f(fn, in)
+				f(o, in)
 			}
 		}
 	}
@@ -722,6 +724,13 @@ func (m *Module) storesToField(f *types.Var) []fieldStore {
 func outermost(fn *ssa.Function) *ssa.Function {
 	for fn.Parent() != nil {
 		fn = fn.Parent()
+	}
+	for _, m := range loadedModules {
+		if m.Prog == fn.Prog {
+			if o := m.owner(fn); o != fn {
+				return outermost(o)
+			}
+		}
 	}
 	return fn
 }
